@@ -33,7 +33,7 @@ def list_instances(prop, tier, only=None):
     code = (
         "import json,sys,importlib\n"
         "from sx import api, instr\n"
-        "instr.install(); api._install_explorer_api()\n"
+        "instr.install((\"btclib\", \"harness\", \"refs\")); api._install_explorer_api()\n"
         f"mods={harness_modules(prop)!r}\n"
         "for m in mods: importlib.import_module(m)\n"
         "out=[]\n"
